@@ -986,10 +986,8 @@ class Client():
 
         self.connector.tx(request)
 
-        if method is not None:
-            self.respondent.reinit(method=self.requester.method)
-        else:
-            self.respondent.reinit()  # reset code status reason
+        # respondent frames response by method of request just sent, HEAD has no body
+        self.respondent.reinit(method=self.requester.method)
 
     def redirect(self):
         """
